@@ -45,6 +45,12 @@ def obligations(tier):
     for (n, ny, nlv, mlr) in [(2, 2, 1, 1), (3, 2, 1, 1), (3, 1, 1, 1)]:
         obs.append(Ob(id=f'tables/{"mlr" if mlr else "pls"}/n{n}ny{ny}nlv{nlv}', harness='C15/tables.c', tus=TT, defs={'HP_N': n, 'HP_NY': ny, 'HP_NLV': nlv, 'HP_MLR': mlr}, engine='real', unwind=8, timeout=to,
                       clause='statistic tables = the figures of merit per response and latent variable', stubs=('sym_real_env_uf.c',), real={'nomissing': True, 'tactics': ('default', 'nlsat')}))
+    # MISSING-coded truths are ignored per response column (an object with one missing response still counts for the other responses)
+    for (n, ny, nlv, mlr, mask) in ([(4, 2, 1, 1, 0b00000010), (4, 2, 1, 1, 0b00100100)] if not th else [(4, 2, 1, 1, 0b00000010), (4, 2, 1, 1, 0b00100100), (5, 2, 1, 1, 0b0000011000)]):
+        if mlr:
+            obs.append(Ob(id=f'tables_missing/mlr/n{n}ny{ny}nlv{nlv}/mask{mask:b}', harness='C15/tables.c', tus=TT, defs={'HP_N': n, 'HP_NY': ny, 'HP_NLV': nlv, 'HP_MLR': mlr, 'HP_MASK': mask}, engine='real', unwind=8, timeout=to,
+                          clause='statistic tables = the figures of merit per response and latent variable (missing-coded truths ignored per column)', stubs=('sym_real_env_uf.c',), real={'nomissing': True, 'tactics': ('default', 'nlsat')}))
+        # (the PLS table with missing cells was tried bit-precisely as well: CBMC reports the end of the harness unreachable or does not finish - not claimed)
     for n in (2, 3, 4, 5):
         obs.append(Ob(id=f'area/n{n}', harness='C15/area.c', tus=T, defs={'HP_N': n}, engine='real', unwind=8, timeout=to, clause='trapezoid area', stubs=R, real={'nomissing': True}))
     return obs
